@@ -169,6 +169,7 @@ func (x *Exec) runPath(st *State) {
 	for {
 		done := x.stepGuard(st)
 		if done {
+			x.flushAsserts(st)
 			x.PathsDone++
 			return
 		}
@@ -283,6 +284,7 @@ func (x *Exec) endPath(st *State) {
 // chosen condition is added to the path condition.  Must be called before the
 // handler mutates the state.
 func (x *Exec) choose(st *State, conds []*Term, tag string) int {
+	x.flushAsserts(st)
 	if st.decided < len(st.pending) {
 		i := st.pending[st.decided]
 		st.decided++
@@ -293,7 +295,7 @@ func (x *Exec) choose(st *State, conds []*Term, tag string) int {
 	if len(conds) == 2 && conds[1] == x.tc.Not(conds[0]) && !conds[0].cst {
 		// complementary pair: if one side is infeasible the other is feasible
 		// because the path condition itself is satisfiable
-		r := x.sol.Check(append(append([]*Term(nil), st.pc...), conds[0]))
+		r := x.sol.Check(st.pc, conds[0])
 		if r == Unsat {
 			x.assume(st, conds[1])
 			st.pending = append(st.pending, 1)
@@ -303,7 +305,7 @@ func (x *Exec) choose(st *State, conds []*Term, tag string) int {
 		if r == Unknown {
 			st.unknownBranch = true
 		}
-		r2 := x.sol.Check(append(append([]*Term(nil), st.pc...), conds[1]))
+		r2 := x.sol.Check(st.pc, conds[1])
 		if r2 == Unsat {
 			x.assume(st, conds[0])
 			st.pending = append(st.pending, 0)
@@ -323,7 +325,7 @@ func (x *Exec) choose(st *State, conds []*Term, tag string) int {
 			feas = append(feas, i)
 			continue
 		}
-		r := x.sol.Check(append(append([]*Term(nil), st.pc...), c))
+		r := x.sol.Check(st.pc, c)
 		if r == Unknown {
 			st.unknownBranch = true
 		}
@@ -357,6 +359,7 @@ func (x *Exec) assume(st *State, c *Term) {
 	if c.IsTrue() {
 		return
 	}
+	x.flushAsserts(st)
 	st.pc = append(st.pc, c)
 }
 
@@ -367,7 +370,7 @@ func (x *Exec) feasible(st *State, c *Term) bool {
 	if c.IsFalse() {
 		return false
 	}
-	r := x.sol.Check(append(append([]*Term(nil), st.pc...), c))
+	r := x.sol.Check(st.pc, c)
 	if r == Unknown {
 		st.unknownBranch = true
 	}
